@@ -378,6 +378,9 @@ contract(AR_ + '._assertion', types={'assertion': ASRT, 'verified': 'Any'}, retu
                    'SIG_OK(self.sec, self.xmlstr, assertion, cname(assertion), None))'),
                   ('C01-assertion-reference-own-id',
                    'implies(truthy(assertion.signature) and not truthy(verified) and self.do_not_verify is False, REF_OK(assertion))'),
+                  ('C01-assertion-one-enveloped-signature-of-its-own',
+                   'implies(truthy(assertion.signature) and not truthy(verified) and self.do_not_verify is False, '
+                   'ENVELOPED(DOC(self.xmlstr), assertion.id, self.sec.id_attr))'),
                   ('C04-conditions-window',
                    'implies(not truthy(self.test) and assertion.conditions is not None and truthy(assertion.conditions.not_on_or_after), '
                    'NOW <= epoch(assertion.conditions.not_on_or_after) + self.timeslack) and '
@@ -399,7 +402,7 @@ contract(AR_ + '._assertion', types={'assertion': ASRT, 'verified': 'Any'}, retu
                  'Exception': 'True'},
          modifies=['self.assertion', 'self.came_from', 'self.name_id', 'self.not_on_or_after', 'self.session_not_on_or_after',
                    'assertion.subject.subject_confirmation'],
-         clauses_from={'C02': ['C02-required-assertion-signature'], 'C01': ['C01-assertion-signature-verified', 'C01-assertion-reference-own-id'],
+         clauses_from={'C02': ['C02-required-assertion-signature'], 'C01': ['C01-assertion-signature-verified', 'C01-assertion-reference-own-id', 'C01-assertion-one-enveloped-signature-of-its-own'],
                        'C20': ['C01-assertion-signature-verified'],
                        'C04': ['C04-conditions-window', 'C04-session-window'],
                        'C05': ['C05-audience', 'C05-confirmations', 'C05-solicited'],
